@@ -245,6 +245,48 @@ let iter_oracle en kind mode elems obs =
       v = want_v && a = want_a && c = want_c
   | _ -> false
 
+(* ---- the same adaptor / container used more than once ---- *)
+let gm (v : int) : int = 2 * v + 1
+let reuse_valid sc kind mode =
+  List.mem kind ["vec"; "list"; "map"; "fv"] &&
+  (match sc with
+   | "en2" | "rv2" | "enbe" | "rvbe" -> mode = "l" || mode = "r"
+   | "enen" | "enrv" | "enmod" | "rvmod" -> mode = "l"
+   | _ -> false)
+let inner_str f = function Done vs -> f vs | OutOfFuel -> "HANG" | BadDeref -> "CRASH(model:bad-deref)"
+let nn_str fin l =
+  if l = [] then "." else String.concat "|" (List.map (fun ((i, v), inner) -> Printf.sprintf "%d:%d=%s" (int_of_nat i) v (fin inner)) l)
+let reuse_model sc kind mode elems =
+  if not (reuse_valid sc kind mode) then "BADCASE" else
+  match sc with
+  | "en2" -> out_str (fun (a, b) -> Printf.sprintf "V2 %s %s" (vis_e a) (vis_e b)) (enumerate_twice elems)
+  | "rv2" -> out_str (fun (a, b) -> Printf.sprintf "V2 %s %s" (wire_of_ints a) (wire_of_ints b)) (reverse_twice elems)
+  | "enen" -> out_str (fun l -> "NN " ^ nn_str (inner_str vis_e) l) (enumerate_nested elems)
+  | "enrv" -> out_str (fun l -> "NN " ^ nn_str (inner_str wire_of_ints) l) (enumerate_reverse_nested elems)
+  | "enmod" -> out_str (fun (vs, c) -> Printf.sprintf "V %s A - C %s" (vis_e vs) (wire_of_ints c)) (enumerate_after_modify gm elems)
+  | "rvmod" -> out_str (fun (vs, c) -> Printf.sprintf "V %s A - C %s" (wire_of_ints vs) (wire_of_ints c)) (reverse_after_modify gm elems)
+  | "enbe" -> let b = b01 (enumerate_nonempty_test elems) in
+              out_str (fun (vs, _) -> Printf.sprintf "BE %s%s%s %d" b b b (List.length vs)) (enumerate_for (fun _ v -> v) elems)
+  | "rvbe" -> let b = b01 (reverse_nonempty_test elems) in
+              out_str (fun (vs, _) -> Printf.sprintf "BE %s%s%s %d" b b b (List.length vs)) (reverse_for (fun v -> v) elems)
+  | _ -> "BADCASE"
+(* SPEC: every use of the adaptor visits each element once, indices 0..n-1 again / the opposite order again *)
+let reuse_oracle sc kind mode elems obs =
+  if not (reuse_valid sc kind mode) then obs = "BADCASE" else
+  let n = List.length elems in
+  let en c = vis_e (spec_enumerate c) and rv c = wire_of_ints (List.rev c) in
+  let ne = b01 (n > 0) in
+  let want = match sc with
+    | "en2" -> Printf.sprintf "V2 %s %s" (en elems) (en elems)
+    | "rv2" -> Printf.sprintf "V2 %s %s" (rv elems) (rv elems)
+    | "enen" | "enrv" ->
+        let inner = if sc = "enen" then en elems else rv elems in
+        "NN " ^ (if n = 0 then "." else String.concat "|" (List.map (fun (i, v) -> Printf.sprintf "%d:%d=%s" (int_of_nat i) v inner) (spec_enumerate elems)))
+    | "enmod" -> let c = List.map gm elems in Printf.sprintf "V %s A - C %s" (en c) (wire_of_ints c)
+    | "rvmod" -> let c = List.map gm elems in Printf.sprintf "V %s A - C %s" (rv c) (wire_of_ints c)
+    | _ -> Printf.sprintf "BE %s%s%s %d" ne ne ne n in
+  obs = want
+
 (* ------------------------------------------------------------------ dispatch *)
 let model (w : string list) : string =
   try
@@ -275,6 +317,7 @@ let model (w : string list) : string =
         let x = parse_value sx in
         (match x with VPtr _ -> Printf.sprintf "A 1 %s %s" (hex_of_n (mhash x)) (hex_of_n (mhash x)) | _ -> "BADCASE")
     | [("en" | "rv") as a; kind; mode; elems] -> iter_model (a = "en") kind mode (ints_of_wire elems)
+    | ["re"; sc; kind; mode; elems] -> reuse_model sc kind mode (ints_of_wire elems)
     | _ -> "BADCASE"
   with Bad | Invalid_argument _ | Failure _ | Not_found -> "BADCASE"
 
@@ -308,6 +351,7 @@ let oracle (w : string list) (obs : string) : bool =
   | ["h"; ("P" | "Q"); code; sa; sb; sf], _ -> history_oracle code sa sb sf obs
   | ["a"; "SQ"; _], ["A"; e; hx; hy] -> e = "1" && hx = hy
   | [("en" | "rv") as a; kind; mode; elems], _ -> iter_oracle (a = "en") kind mode (ints_of_wire elems) obs
+  | ["re"; sc; kind; mode; elems], _ -> reuse_oracle sc kind mode (ints_of_wire elems) obs
   | _ -> false
 
 let () = run_driver model oracle
